@@ -18,7 +18,7 @@ PREFIX = {"u64": "u64", "usize": "usize", "u8": "u8", "bool": "bool", "f64": "f6
           "ParmsID": "pid", "EncryptionParameters": "params", "Plaintext": "plain"}
 LEAN_TY = {"u64": "Nat", "usize": "Nat", "u8": "Nat", "int": "Nat", "bool": "Bool", "f64": "Nat", "Modulus": "Nat", "SchemeType": "Nat",
            "ParmsID": "List Nat", "EncryptionParameters": "Params", "Plaintext": "Plain", "I": "α", "unit": "Unit", "bytes": "Bytes",
-           "Level": "Level", "CtV": "CtV", "Ciphertext": "CtV"}
+           "Level": "Level", "CtV": "CtV", "Ciphertext": "CtV", "CdParms": "Level", "HeContext": "Ctx"}
 # functions translated elsewhere (Gen/WordFns.lean, partial: `R`): name -> (Lean name, result type)
 EXTERN_P = {"get_significant_bit_count": ("GenW.get_significant_bit_count", "usize")}
 
@@ -35,13 +35,13 @@ ACCESSORS = {
     ("Plaintext", "parms_id", 0): ("ParmsID", "{0}.pid"),
     ("Plaintext", "data", 0): (("vec", "u64"), "{0}.data"),
     ("Plaintext", "scale", 0): ("f64", "{0}.scale"),
-    # the ciphertext size functions: `self` = the view `CtV`, `context.get_context_data(self.parms_id()).unwrap()` = the level `lv`
-    ("HeContext", "get_context_data", 1): ("OptContextData", "lv"),
-    ("OptContextData", "unwrap", 0): ("ContextData", "lv"),
-    ("ContextData", "parms", 0): ("CdParms", "lv"),
-    ("CdParms", "scheme", 0): ("SchemeType", "lv.scheme"),
-    ("CdParms", "coeff_modulus", 0): (("vec", "Modulus"), "lv.moduli"),
-    ("CdParms", "poly_modulus_degree", 0): ("usize", "lv.n"),
+    # the ciphertext functions: `self` = the view `CtV`; `context` = the model's `Ctx`, `get_context_data(id)` = `Ctx.find id` (an Option:
+    # the code's `.unwrap()` on it panics for an unknown parms id), a `ContextData` = the model's `Level`
+    ("HeContext", "get_context_data", 1): (("opt", "Level"), "({0}.find {1})"),
+    ("Level", "parms", 0): ("CdParms", "{0}"),
+    ("CdParms", "scheme", 0): ("SchemeType", "{0}.scheme"),
+    ("CdParms", "coeff_modulus", 0): (("vec", "Modulus"), "{0}.moduli"),
+    ("CdParms", "poly_modulus_degree", 0): ("usize", "{0}.n"),
     ("Ciphertext", "parms_id", 0): ("ParmsID", "{0}.pid"),
     ("Ciphertext", "size", 0): ("usize", "{0}.size"),
     ("Ciphertext", "is_ntt_form", 0): ("bool", "{0}.ntt"),
@@ -457,7 +457,7 @@ class Lower:
             if m == "to_le_bytes" and not args and t in ("u64", "usize"): return k(f"(leBytes {self.gen.sizes[t]} {c})", ("bytes", None, self.gen.sizes[t]))
             if m == "unwrap" and not args and isinstance(t, tuple) and t[0] == "opt":
                 v = self.fresh()
-                return f"match {c} with\n| some {v} => {k(v, t[1])}\n| none => {self.panic()}"
+                return f"(match {c} with\n| some {v} => (\n{k(v, t[1])})\n| none => {self.panic()})"
             if m == "iter" and not args: return k(c, t)
             if (t, m, len(args)) in ACCESSORS:
                 rt, tpl = ACCESSORS[(t, m, len(args))]
@@ -770,9 +770,9 @@ class Lower:
                 env["self"] = ("self_", self.ntp(self.selfty)); binders.append(f"(self_ : {lty(self.selfty)})"); continue
             t = self.rty(pt)
             if t == "stream": env[pn] = ("st", "stream"); continue
-            if t == "HeContext": env[pn] = ("lv", "HeContext"); binders.append("(lv : Level)"); continue
+            if t == "HeContext": env[pn] = ("ctx", "HeContext"); binders.append("(ctx : Ctx)"); continue
             env[pn] = (self.lname(pn), t); binders.append(f"({self.lname(pn)} : {lty(t)})")
-        if self.ent.get("ctx_first"): binders.sort(key=lambda b: 0 if b.startswith("(lv") else 1)
+        if self.ent.get("ctx_first"): binders.sort(key=lambda b: 0 if b.startswith("(ctx") else 1)
         ret = fn["ret"]
         if self.mode in ("W", "R"):
             if ret[0] != "result": self.fail("a stream function must return Result<..>")
@@ -994,7 +994,7 @@ TABLE = (
        {"fn": "read_u64_limited", "mode": "R", "lean": "read_u64_limited", "where": "fn read_u64_limited"},
        {"fn": "serialize_full", "impl": "Ciphertext", "selfty": "Ciphertext", "mode": "W", "lean": "ct_serialize_full", "where": "impl Ciphertext :: serialize_full", "ctx_first": True},
        {"fn": "serialize", "impl": "SerializableWithHeContext for Ciphertext", "selfty": "Ciphertext", "mode": "W", "lean": "ct_serialize", "where": "impl SerializableWithHeContext for Ciphertext :: serialize", "ctx_first": True},
-       {"fn": "serialized_full_size", "impl": "Ciphertext", "selfty": "Ciphertext", "mode": "T", "lean": "ct_serialized_full_size", "where": "impl Ciphertext :: serialized_full_size", "ctx_first": True},
+       {"fn": "serialized_full_size", "impl": "Ciphertext", "selfty": "Ciphertext", "mode": "P", "lean": "ct_serialized_full_size", "where": "impl Ciphertext :: serialized_full_size", "ctx_first": True},
        {"fn": "serialized_size", "impl": "SerializableWithHeContext for Ciphertext", "selfty": "Ciphertext", "mode": "P", "lean": "ct_serialized_size", "where": "impl SerializableWithHeContext for Ciphertext :: serialized_size", "ctx_first": True},
        {"fn": "serialized_terms_size", "impl": "Ciphertext", "selfty": "Ciphertext", "mode": "P", "lean": "ct_serialized_terms_size", "where": "impl Ciphertext :: serialized_terms_size", "ctx_first": True}]
 )
